@@ -231,7 +231,7 @@ fn run_impl<E: EventState + 'static>(plan: &Plan, cfg: &CfgSer, dec: Decisions, 
     let keep2 = keep.clone();
     let plan2 = plan.clone();
     let kill = plan.p("kill");
-    let report = sim::run(cfg.to_cfg(), dec, move || {
+    let report = sim_run(cfg.to_cfg(), dec, move || {
         let plan = plan2;
         let mut hs = Vec::new();
         for (t, n) in notifiers.into_iter().enumerate() {
